@@ -108,7 +108,7 @@ def member_trace(tid, member_case, rec_member, *, collecting, records):
         "valid": bool(p.is_valid),
         "match_count": p.match_count,
         "scan_count": p.scan_count,
-        "printed": [txt(s) for s in cap.lines if not runner.ERRLINE.match(s)], "nerrors": len(p.errors) if p.errors else 0,
+        "printed": [txt(s) for s in cap.lines], "nerrors": len(p.errors) if p.errors else 0,
         "checkLines": False, "lines": [], "headers": [], "checkStdout": False, "stdout": [],
     }
     return {
